@@ -6,6 +6,7 @@ that call the *real* rkcommon code through the driver's verif_use wrappers,
 and the contract clauses (same C text) are evaluated natively on the real
 objects."""
 import os, re, subprocess, json
+from fractions import Fraction
 from astload import repo_path, ExtractionBreak
 from cxx2c import parse_type, fn_ret_type
 
@@ -154,6 +155,41 @@ def adapter(U, cname, checked_spec=None):
     return txt
 
 
+def native_replay(U, native, cex, base, info, real_inputs=False):
+    """author-supplied native experiment: the counterexample's inputs as IN_<name> macros, the unit driver included;
+    exit status != 0 = the real code departs from the specification on these inputs. Returns (confirmed, output)."""
+    src = "#include <cstdio>\n#include <cstdlib>\n#include <cstring>\n#include <cmath>\n#include <vector>\n#include <algorithm>\ntypedef unsigned long __CPROVER_size_t; typedef long __CPROVER_ssize_t;\n"
+    for k, v in cex.items():
+        if real_inputs:
+            try:
+                fv = float(Fraction(str(v.get("data")).replace("?", "")))
+            except Exception:
+                raise ExtractionBreak("model value of %s is not rational: %s" % (k, v.get("data")))
+            src += "#define IN_%s (%r)\n" % (k, fv)
+        else:
+            src += "#define IN_%s (%s)\n" % (k, cxx_value(v.get("type") or "long", v))
+    src += '#include "%s"\n' % U.cpp
+    for m in sorted(set(re.findall(r"IN_(in_\w+)", native))):
+        src += "#ifndef IN_%s\n#define IN_%s 0 /* not in trace */\n#endif\n" % (m, m)
+    src += native
+    with open(base + ".cpp", "w") as fh:
+        fh.write(src)
+    exe = base + ".exe"
+    cmd = ["clang++", "-std=c++11", "-O0", "-w", "-g", "-fsanitize=address,undefined", "-fno-access-control", "-DNDEBUG", "-I" + repo_path(), "-I" + os.path.join(VERIF, "units"), base + ".cpp", "-o", exe,
+           "-ffunction-sections", "-Wl,--gc-sections"]   # (units that include a .cpp of /repo: functions the experiment never calls, and their undefined references, are discarded)
+    p = subprocess.run(cmd, stdout=subprocess.PIPE, stderr=subprocess.PIPE, text=True, timeout=300)
+    info["replay_build"] = " ".join(cmd)
+    if p.returncode != 0:
+        raise ExtractionBreak("replay does not compile: " + p.stderr[-2000:])
+    r = subprocess.run([exe], stdout=subprocess.PIPE, stderr=subprocess.PIPE, text=True, timeout=60)
+    info["replay_exit"] = r.returncode
+    os.remove(exe)
+    out = r.stdout + r.stderr
+    if "REPLAY RESULT" not in out and "Sanitizer" not in out and "runtime error:" not in out:
+        raise ExtractionBreak("replay program did not run to a verdict: " + out[-500:])
+    return ("violation reproduced on real code" in out or "Sanitizer" in out or "runtime error:" in out), out
+
+
 def build_replay(U, job, ob, outdir, prop_id):
     """writes replay source + json; returns (path_json, confirmed: True/False/None, output)"""
     tr = U.tr
@@ -170,28 +206,7 @@ def build_replay(U, job, ob, outdir, prop_id):
     try:
         native = spec.extra.get("replay_native") if hasattr(spec, "extra") else None
         if native:
-            # author-supplied native experiment: the counterexample's inputs as IN_<name> macros, the unit driver included;
-            # exit status 1 = the real code departs from the specification on these inputs
-            src = "#include <cstdio>\n#include <vector>\n#include <algorithm>\ntypedef unsigned long __CPROVER_size_t; typedef long __CPROVER_ssize_t;\n"
-            for k, v in cex.items():
-                src += "#define IN_%s (%s)\n" % (k, cxx_value(v.get("type") or "long", v))
-            src += '#include "%s"\n' % U.cpp
-            for m in sorted(set(re.findall(r"IN_(in_\w+)", native))):
-                src += "#ifndef IN_%s\n#define IN_%s 0 /* not in trace */\n#endif\n" % (m, m)
-            src += native
-            with open(base + ".cpp", "w") as fh:
-                fh.write(src)
-            exe = base + ".exe"
-            cmd = ["clang++", "-std=c++11", "-O0", "-w", "-g", "-fsanitize=address,undefined", "-fno-access-control", "-DNDEBUG", "-I" + repo_path(), "-I" + os.path.join(VERIF, "units"), base + ".cpp", "-o", exe]
-            p = subprocess.run(cmd, stdout=subprocess.PIPE, stderr=subprocess.PIPE, text=True, timeout=300)
-            info["replay_build"] = " ".join(cmd)
-            if p.returncode != 0:
-                raise ExtractionBreak("replay does not compile: " + p.stderr[-2000:])
-            r = subprocess.run([exe], stdout=subprocess.PIPE, stderr=subprocess.PIPE, text=True, timeout=60)
-            output = r.stdout + r.stderr
-            confirmed = (r.returncode != 0)
-            info["replay_exit"] = r.returncode
-            os.remove(exe)
+            confirmed, output = native_replay(U, native, cex, base, info)
             raise StopIteration
         if ob.get("kind") not in ("ensures", "lemma"):
             raise ExtractionBreak("obligation kind '%s' is replayed with sanitizers only" % ob.get("kind"))
@@ -267,6 +282,9 @@ def build_math_replay(U, job, ob, outdir, prop_id):
         except Exception:
             return None
     try:
+        if getattr(ms, "replay_native", None):
+            confirmed, output = native_replay(U, ms.replay_native, cex, base, info, real_inputs=True)
+            raise StopIteration
         f = tr.funcs[target]
         fs = FnSpec(target, arrays=ms.arrays, noalias=True)
         htxt, inputs = U.auto_harness(fs, f)
@@ -347,6 +365,8 @@ def build_math_replay(U, job, ob, outdir, prop_id):
         output += "\n".join(cmp)
         confirmed = bool(agree and n_cmp > 0)
         output += "\nREPLAY RESULT: %s\n" % ("real code reproduces the outputs that violate clause '%s'" % label if confirmed else "not reproduced")
+    except StopIteration:
+        pass
     except (ExtractionBreak, ValueError, subprocess.TimeoutExpired, KeyError) as ex:
         output = "replay not possible: %s" % ex
         confirmed = None
